@@ -163,7 +163,8 @@ def addr_text(rep, u, fname="sa_addr_to_str"):
         bind = {p_addr: ADDR, "%s->ss_family" % p_addr: fam, p_buf: BUF, p_size: size, p_ret: RET, "*(__errno_location())": 28}
         if fam != 1:
             # inet_ntop succeeds exactly when the text and its terminator fit the capacity it is *given*: read that capacity
-            pe0 = r_stride.PE(u, call_default={"inet_ntop": BUF, "sa_addr_get": SIN, "strnlen": min(L, size), "strlcpy": L, "__errno_location": 0x40000})
+            pe0 = r_stride.PE(u, call_default={"inet_ntop": BUF, "sa_addr_get": SIN, "strnlen": min(L, size), "strlcpy": L, "__errno_location": 0x40000,
+                                               "memchr": 0, "memcmp": 1})
             pe0.memory[0x40000] = 28
             ev0, _r0 = pe0.trace(fn, bind)
             cap0 = None
@@ -179,8 +180,9 @@ def addr_text(rep, u, fname="sa_addr_to_str"):
                 continue
             ok = L + 1 <= cap0
         # strnlen(s, max) = min(length, max): on the AF_UNIX arm the bound is the size of sun_path (108), otherwise the buffer size
+        # memchr(buf, '.') = NULL / memcmp(addr, zeros, 12) != 0: the text is not the mixed notation of an address in ::/96
         pe = r_stride.PE(u, call_default={"inet_ntop": BUF if ok else 0, "sa_addr_get": SIN, "strnlen": min(L, 108) if fam == 1 else min(L, size),
-                                           "strlcpy": L, "__errno_location": 0x40000})
+                                           "strlcpy": L, "__errno_location": 0x40000, "memchr": 0, "memcmp": 1})
         pe.memory[0x40000] = 28
         ev, ret = pe.trace(fn, bind)
         what = "family=%s buf_size=%d text of %d bytes%s" % (FAM_NAME[fam], size, L, "" if ok else " (inet_ntop fails)")
@@ -220,8 +222,32 @@ def addr_text(rep, u, fname="sa_addr_to_str"):
             bad = bad or "%s: returns %s although the text and its terminator %s" % (what, ret, "fit" if fits else "do not fit")
         elif reported is not None and reported != text:
             bad = bad or "%s: reports a size of %s" % (what, reported)
+    # RFC 5952 section 5: the mixed notation is for the well-known IPv4 prefixes only; glibc's inet_ntop also uses it for the
+    # deprecated IPv4-compatible ::/96 ("::0.1.0.128" for ::1:80).  Class: AF_INET6, inet_ntop text contains '.', first 96 bits 0:
+    # the text must be rewritten by a bounded formatter whose result is the reported size.
+    for size, L2 in itertools.product((8, 16, 46), (3, 7, 11)):
+        bind = {p_addr: ADDR, "%s->ss_family" % p_addr: 10, p_buf: BUF, p_size: size, p_ret: RET}
+        pe = r_stride.PE(u, call_default={"inet_ntop": BUF, "sa_addr_get": SIN, "strnlen": min(11, size), "__errno_location": 0x40000,
+                                           "memchr": BUF + 2, "memcmp": 0, "snprintf": L2})
+        for i_ in range(16):
+            pe.memory[SIN + i_] = 0 if i_ < 12 else 1
+        ev, ret = pe.trace(fn, bind)
+        what = "AF_INET6 in ::/96, inet_ntop gave the mixed notation, buf_size=%d, rewritten text of %d bytes" % (size, L2)
+        n += 1
+        if isinstance(ret, str):
+            undec = undec or "%s: %s" % (what, ret)
+            continue
+        fmt = [x for e, b in ev for x, _ in walk(e) if x.get("k") == "call" and x.get("fn") in ("snprintf", "__builtin___snprintf_chk")]
+        reported = ev[-1][1].get("*(%s)" % p_ret) if ev else None
+        if not fmt:
+            bad = bad or "%s: the text is returned as inet_ntop wrote it (\"::0.1.0.128\" instead of the RFC 5952 form \"::1:80\")" % what
+        elif (ret == 0) != (L2 < size):
+            bad = bad or "%s: returns %s" % (what, ret)
+        elif reported != L2:
+            bad = bad or "%s: reports a size of %s" % (what, reported)
     desc = ("%s: libc gets a capacity inside the buffer, the reported size is the length of the text, success exactly when "
-            "text and terminator fit, for every family / buffer size / text length class" % fname)
+            "text and terminator fit, for every family / buffer size / text length class; IPv4-compatible addresses are not "
+            "left in the mixed notation" % fname)
     (rep.violated if bad else rep.undecided if undec else rep.proved)("R-LAYOUT", fn, "addr-text", desc, bad or undec or "%d classes" % n)
     return n
 
@@ -591,6 +617,8 @@ def prefix_passthrough(rep, u, fname="str_net_to_ss"):
     for fam, fname_, full in ((2, "AF_INET", 32), (10, "AF_INET6", 128)):
         for have, v in [(1, x) for x in (0, 1, 8, 24, 31, 32, 33, 64, 127, 128)] + [(0, None)]:
             pe = r_stride.PE(u)
+            for i_ in range(20):
+                pe.memory[BUF + i_] = 0x31
             bind = {"buf": BUF, "buf_size": 20, "addr": ADDR, "preflen_ret": OUT, "addr->ss_family": fam,
                     key(srch[0]): (BUF + 10) if have else 0, key(addrp[0]): 0}
             if numcalls[0].get("fn", "").endswith("_chk"):
@@ -706,6 +734,8 @@ def run(rep, tier):
     rep.floor("port suffix capacity tests", c18_audit.port_capacity_rule(rep, usa), 1)
     rep.floor("network family switches", c18_audit.network_family_rule(rep, unu), 1)
     rep.floor("inet_ntop capacity arguments", c18_audit.socklen_rule(rep, usa), 1)
+    rep.floor("first-byte guards of the port split", c18_audit.unix_no_split_rule(rep, usa), 2)
+    rep.floor("network texts with blanks", c18_audit.net_blank_rule(rep, unu), 5)
     nwf = nacc = 0
     for lab, u in us.items():
         fns_ = [f for f in u.function_list if f.relfile() == lab]
